@@ -4,6 +4,7 @@
 import hmac
 import hashlib
 import ecdsa
+from . import keys
 
 CURVE = ecdsa.SECP256k1
 N = CURVE.order
@@ -11,7 +12,8 @@ NAMES = ["device", "attestation", "ui", "signer"]
 
 
 def new_key(rng):
-    d = rng.randrange(1, N)
+    # one key in eight has a coordinate that starts or ends like an encoding marker
+    d = keys.maybe_special_scalar_k1(rng) or rng.randrange(1, N)
     return ecdsa.SigningKey.from_secret_exponent(d, curve=CURVE, hashfunc=hashlib.sha256)
 
 
